@@ -16,16 +16,22 @@ using fast_float::from_chars_result;
 inline from_chars_result fast_from_chars(const char* start, const char* end, double& d) {
   while (start < end && is_space(*start))
     ++start;
-  if (start < end && *start == '+')
+  if (start < end && *start == '+') {
     ++start;
+    if (start < end && *start == '-')  // "+-1" is not a number
+      return {start, std::errc::invalid_argument};
+  }
   return fast_float::from_chars(start, end, d);
 }
 
 inline from_chars_result fast_from_chars(const char* start, double& d) {
   while (is_space(*start))
     ++start;
-  if (*start == '+')
+  if (*start == '+') {
     ++start;
+    if (*start == '-')  // "+-1" is not a number
+      return {start, std::errc::invalid_argument};
+  }
   return fast_float::from_chars(start, start + std::strlen(start), d);
 }
 
